@@ -57,6 +57,9 @@ def peer_strategy(dll=None, roles=("orig", "resp"), modes=("rts", "rts", "bam"),
                 p["bam_dt"] = draw(st.sampled_from([None, None, 0.01, 0.02, 0.05, 0.075, 0.1, 0.15, 0.19]))
             else:
                 p["rts_dt"] = draw(st.sampled_from([None, None, 0.001, 0.002, 0.005, 0.01, 0.02, 0.05]))
+                # a frame write of the stack's thread that waits before the frame is on the bus (full transmit queue): the frame
+                # appears when the write returns
+                p["tx_pre"] = draw(st.sampled_from([0.0, 0.0, 0.0005, 0.002, [0.004, 0.0], [0.0, 0.002, 0.0005], [0.001, 0.0, 0.0, 0.003]]))
         # the peer's free choices, all inside the standard's envelope
         peer = {"grants": draw(st.lists(st.one_of(st.sampled_from([1, 1, 2, 3, 255]), st.integers(1, 255)), min_size=1, max_size=4)),
                 "holds": draw(st.lists(st.sampled_from([0, 0, 0, 1, 2, 3]), min_size=1, max_size=3)),
@@ -137,7 +140,7 @@ def run(p):
             e = p["earlier"]
             w.bus.detach(w.stack("E", dll=p["dll"], max_cmdt=e["max_cmdt"], bam_dt=e["bam_dt"], rts_cts_dt=e["rts_dt"]))
         s = w.stack("S", dll=p["dll"], max_cmdt=p["max_cmdt"], bam_dt=p["bam_dt"], rts_cts_dt=p["rts_dt"],
-                    tx_time=p.get("tx_time", 0.0))
+                    tx_time=p.get("tx_time", 0.0), tx_pre=p.get("tx_pre", 0.0))
         s.add_ca("s", 0x100, SA_S)
         s.listen_ca("s")
         if p.get("app_timer"):
